@@ -131,6 +131,7 @@ func RunVectorEstimators(c *core.Ctx) {
 	default:
 		k := 2
 		steps := t.Range(1, 3)
+		optE, optW := !t.Bool(1, 5), !t.Bool(1, 5)
 		what = fmt.Sprintf("vector:mixture(normal x%d,dim=%d,steps=%d)", k, dim, steps)
 		sig := make([]float64, dim*dim)
 		for i := 0; i < dim; i++ {
@@ -145,7 +146,11 @@ func RunVectorEstimators(c *core.Ctx) {
 				}
 				es[i], _ = ve.NewNormalEstimator(mu, append([]float64(nil), sig...), 0.2)
 			}
-			return ve.NewMixtureEstimator([]float64{1, 2}, es, math.Inf(-1), steps)
+			m, err := ve.NewMixtureEstimator([]float64{1, 2}, es, math.Inf(-1), steps)
+			if err == nil {
+				m.OptimizeEmissions, m.OptimizeWeights = optE, optW
+			}
+			return m, err
 		}
 		recs = append(append(spreadRecords(t, dim), spreadRecords(t, dim)...), drawRecords(t, nrec, dim, false, 0)...)
 	}
